@@ -186,7 +186,7 @@ def main():
     engine.build(['asan'])
     quick = ck.tier == 'quick'
     dl = ck.deadline
-    plan = [(4, 1), (5, 1), (3, 2)] if quick else [(5, 1), (6, 1), (4, 2), (5, 2)]
+    plan = [(4, 1), (3, 2), (5, 1)] if quick else [(5, 1), (4, 2), (6, 1), (5, 2)]      # cheapest first, the deepest bound last
     for N, nins in plan:
         shards = []
         for sid in USE:
